@@ -73,7 +73,10 @@ impl<'a> Remote<'a> {
                 crate::yield_now()
             }
         }
-        if !notified && let Some(ref waker) = shared.waker {
+        // Always notify once the id is queued: a notification sent while the queue was
+        // full may have been consumed by the runtime before this push landed, and the
+        // runtime would then go to sleep with the id sitting in the queue.
+        if let Some(ref waker) = shared.waker {
             waker.wake_by_ref();
         }
 
